@@ -36,7 +36,7 @@ def gen_case(rng, cfg, idx):
                 return {"kind": "iter", "prog": c["prog"], "L": c["L"], "k": rng.randint(2, 5), "kseed": rng.randrange(1 << 30)}
         return None
     if r == 1:
-        c = C05.gen_case(rng, {"nstmts": cfg["nstmts"]}, idx)
+        c = C05.gen_case(rng, {"nstmts": cfg["nstmts"], "two_epoch": "random"}, idx)
         if c is None:
             return None
         return {"kind": "hist", "prog": c["prog"], "L": c["L"], "kseed": rng.randrange(1 << 30)}
@@ -153,8 +153,9 @@ def run_iter(case, cnt, viol, sets):
 def run_hist(case, cnt, viol, sets):
     prog = case["prog"]
     it = Interp("mg")
-    it.run(prog[:-1], catch=False)
-    L = it.env[case["L"]]
+    it.run(prog[:-1], catch=False)    # (two-epoch histories: everything up to the LAST backward, earlier backward passes included)
+    L = it.env[prog[-1]["tgt"]]
+    cnt["hist_epochs"] = cnt.get("hist_epochs", 0) + sum(1 for st in prog if st["k"] == "backward")
     pre = upstream_tensors(L)
     nup = len(pre)
     L.backward()
